@@ -381,3 +381,114 @@ func TestC15_Windows(t *testing.T) {
 	rec.Sample(NocopyCase{Vals: []PStr{{L: 4096, S: 4}, {L: 5000, S: 5}, {L: 1, S: 6}}, IsBin: []bool{false, false, true}})
 	rec.SetExhaustive()
 }
+
+// ---- histories on the repository's direct-writer double -------------------------------------------------
+
+// DoubleMsg is one message written through a NetpollDirectWriter that is reused from message to message.
+type DoubleMsg struct {
+	Lens    []int `json:"lens"`              // value lengths
+	Reject  bool  `json:"reject,omitempty"`  // first, a large value is written into an undersized buffer (the double refuses it)
+	Forward bool  `json:"forward,omitempty"` // value 0 is a sub-slice of the buffer the double handed out for the previous message
+}
+
+// DoubleCase is a sequence of messages on one double.
+type DoubleCase struct {
+	Msgs []DoubleMsg `json:"msgs"`
+}
+
+func checkDoubleHistory(c DoubleCase, cv *cov) (v *evid.Violation) {
+	if len(c.Msgs) == 0 || len(c.Msgs) > 12 {
+		return nil
+	}
+	nw := &netpoll.NetpollDirectWriter{}
+	var prevBuf []byte
+	sawReject, sawForward, sawDirectAfter := false, false, false
+	body := func() {
+		for mi, m := range c.Msgs {
+			if len(m.Lens) == 0 || len(m.Lens) > 8 {
+				continue
+			}
+			if m.Reject {
+				small := nw.Malloc(10)
+				big := patternBytes(byte(mi+9), 5000)
+				p, _ := evid.Safe(func() { thrift.Binary.WriteBinaryNocopy(small, nw, big) })
+				if p == nil {
+					v = evid.Failf("message %d: the double accepted a 5000-byte direct write into a 10-byte buffer", mi)
+					return
+				}
+				sawReject = true
+			}
+			var vals [][]byte
+			total := 0
+			for i, l := range m.Lens {
+				if l < 0 || l > 1<<17 {
+					l = 0
+				}
+				var val []byte
+				if i == 0 && m.Forward && len(prevBuf) >= 8 {
+					// zero-copy forwarding of bytes that already sit in the previous message's buffer
+					hi := len(prevBuf)
+					lo := hi - l
+					if lo < 0 {
+						lo = 0
+					}
+					val = prevBuf[lo:hi]
+					sawForward = true
+				} else {
+					val = patternBytes(byte(mi*16+i+1), l)
+				}
+				vals = append(vals, val)
+				total += 4 + len(val)
+			}
+			var want []byte
+			for _, val := range vals {
+				want = append(ref.Put32(want, uint32(len(val))), val...)
+			}
+			b := nw.Malloc(total)
+			off := 0
+			for _, val := range vals {
+				off += thrift.Binary.WriteBinaryNocopy(b[off:], nw, val)
+			}
+			got := nw.Bytes() // the buffer offset advances by 4 only for a value handed over directly
+			if !bytes.Equal(got, want) {
+				v = evid.Failf("message %d of %d on one reused direct writer (value lengths %v, after a refused write: %v, first value forwarded from the previous buffer: %v): the spliced stream differs from the copying path at offset %d (%d vs %d bytes)", mi, len(c.Msgs), m.Lens, m.Reject, m.Forward && prevBuf != nil, firstDiff(got, want), len(got), len(want))
+				return
+			}
+			if nw.WriteDirectN() > 0 && mi > 0 {
+				sawDirectAfter = true
+			}
+			prevBuf = b
+		}
+	}
+	if p, st := evid.Safe(body); p != nil {
+		return &evid.Violation{Msg: fmt.Sprintf("panic on a reused direct writer: %v", p), Stack: st}
+	}
+	if v != nil {
+		return v
+	}
+	cv.nontrivial = sawDirectAfter
+	cv.labelIf(sawReject, "refused_direct_write_then_reuse")
+	cv.labelIf(sawForward, "value_forwarded_from_previous_buffer")
+	cv.labelIf(sawDirectAfter, "direct_write_on_a_reused_writer")
+	return nil
+}
+
+func init() { register("c15_double_history", checkDoubleHistory) }
+
+func TestC15_DoubleHistory(t *testing.T) {
+	rec := evid.New("C15", "c15_double_history", "rapid: 1..8 messages written one after the other through one NetpollDirectWriter (the repository's direct-writer double, reused via Malloc): each message is 1..5 binaries (lengths as in c15_random) written with WriteBinaryNocopy and spliced with Bytes(); before some messages a 5000-byte direct write into a 10-byte buffer is refused by the double (recovered); in some messages the first value is a sub-slice of the buffer handed out for the previous message (zero-copy forwarding); oracle = copying path; non-trivial = a direct write happened on a reused writer")
+	defer rec.Flush()
+	runRapid(t, rec, "c15_double_history", evid.Pick(15000, 150000), func(t *rapid.T) DoubleCase {
+		var c DoubleCase
+		n := rapid.IntRange(1, 8).Draw(t, "msgs")
+		for i := 0; i < n; i++ {
+			m := DoubleMsg{Reject: rapid.IntRange(0, 3).Draw(t, "reject") == 0, Forward: rapid.IntRange(0, 2).Draw(t, "forward") == 0}
+			k := rapid.IntRange(1, 5).Draw(t, "nvals")
+			for j := 0; j < k; j++ {
+				m.Lens = append(m.Lens, genNocopyLen(t, "len"))
+			}
+			c.Msgs = append(c.Msgs, m)
+		}
+		return c
+	}, checkDoubleHistory)
+}
